@@ -77,6 +77,8 @@ class World:
 
 class CostExec(SymExec):
     def __init__(self, world, fi, flags=None, env=None, stack=(), loops=(), self_env=None, cls=None):
+        from ..normalise import normalised
+        fi = normalised(world.repo, fi)      # new helpers, nested defs, comprehension-with-helper, conditional expressions: one spelling
         super().__init__(fi, flags=flags, env=env, atoms=world.atoms, vectors=True)
         self.world = world
         self.stack = tuple(stack) + (fi.qualname,)
@@ -238,6 +240,20 @@ class CostExec(SymExec):
         f = call.func
         name = U(f)
         last = name.split('.')[-1]
+        if isinstance(f, ast.Name):
+            # a local bound to a function reference (`sample = np.random.laplace if ... else np.random.normal`)
+            v = self.env.get(f.id)
+            ref = None
+            if isinstance(v, Opaque) and isinstance(v.expr, (ast.Attribute, ast.Name)) and not isinstance(v.tag, Tag):
+                ref = v.expr
+            elif isinstance(v, Alg) and v.is_rat() and len(v.rat().symbols()) == 1:
+                nm = list(v.rat().symbols())[0]
+                if '.' in nm and all(p.isidentifier() for p in nm.split('.')) and v.eq(sym(nm)):
+                    ref = ast.parse(nm, mode='eval').body
+            if ref is not None and U(ref) != f.id:
+                call2 = ast.copy_location(ast.Call(func=ref, args=call.args, keywords=call.keywords), call)
+                ast.fix_missing_locations(call2)
+                return self.hook(call2, ex)
         dotted = self.mod.dotted(f) if isinstance(f, (ast.Attribute, ast.Name)) else None
         # ---- noise primitives ----------------------------------------------------------------------------------
         if last in ('normal', 'laplace') and isinstance(f, ast.Attribute) and \
@@ -535,6 +551,18 @@ class CostExec(SymExec):
             return
         if isinstance(s, (ast.For, ast.While)):
             return self.loop(s)
+        if isinstance(s, ast.Expr) and isinstance(s.value, ast.Call) and isinstance(s.value.func, ast.Attribute) \
+                and s.value.func.attr == 'append' and isinstance(s.value.func.value, ast.Name) and len(s.value.args) == 1:
+            # list accumulator: joins the element's tag into the container (same as X = np.append(X, v))
+            v = self.value(s.value.args[0])
+            tv = tag_of(v)
+            name = s.value.func.value.id
+            if tv is not None and tv.kind == 'sens':
+                self.env[name] = tagged('qvec', s.value, D=tv.D)
+                return
+            cur = tag_of(self.env.get(name))
+            if cur is not None and cur.kind == 'qvec':
+                return
         if isinstance(s, (ast.Assign, ast.AugAssign, ast.Return, ast.Expr)) and getattr(s, 'value', None) is not None:
             # selections nested inside a larger expression (e.g. `return keys[prng.choice(n, p=p)]`)
             for c in ast.walk(s.value):
